@@ -64,22 +64,31 @@ func (mem *Memory) Name() string {
 func (mem *Memory) Get(key string) (*rspb.Release, error) {
 	defer unlock(mem.rlock())
 
-	keyWithoutPrefix := strings.TrimPrefix(key, "sh.helm.release.v1.")
-	switch elems := strings.Split(keyWithoutPrefix, ".v"); len(elems) {
-	case 2:
-		name, ver := elems[0], elems[1]
-		if _, err := strconv.Atoi(ver); err != nil {
-			return nil, ErrInvalidKey
-		}
-		if recs, ok := mem.cache[mem.namespace][name]; ok {
-			if r := recs.Get(key); r != nil {
-				return r.rls, nil
-			}
-		}
-		return nil, ErrReleaseNotFound
-	default:
+	name, ok := releaseNameOfKey(key)
+	if !ok {
 		return nil, ErrInvalidKey
 	}
+	if recs, ok := mem.cache[mem.namespace][name]; ok {
+		if r := recs.Get(key); r != nil {
+			return r.rls, nil
+		}
+	}
+	return nil, ErrReleaseNotFound
+}
+
+// releaseNameOfKey returns the release name in a key of the form
+// "sh.helm.release.v1.<name>.v<version>". The version is what follows the
+// LAST ".v": release names may themselves contain ".v" (e.g. "a.v1b").
+func releaseNameOfKey(key string) (string, bool) {
+	keyWithoutPrefix := strings.TrimPrefix(key, "sh.helm.release.v1.")
+	i := strings.LastIndex(keyWithoutPrefix, ".v")
+	if i < 0 {
+		return "", false
+	}
+	if _, err := strconv.Atoi(keyWithoutPrefix[i+2:]); err != nil {
+		return "", false
+	}
+	return keyWithoutPrefix[:i], true
 }
 
 // List returns the list of all releases such that filter(release) == true
@@ -199,15 +208,8 @@ func (mem *Memory) Update(key string, rls *rspb.Release) error {
 func (mem *Memory) Delete(key string) (*rspb.Release, error) {
 	defer unlock(mem.wlock())
 
-	keyWithoutPrefix := strings.TrimPrefix(key, "sh.helm.release.v1.")
-	elems := strings.Split(keyWithoutPrefix, ".v")
-
-	if len(elems) != 2 {
-		return nil, ErrInvalidKey
-	}
-
-	name, ver := elems[0], elems[1]
-	if _, err := strconv.Atoi(ver); err != nil {
+	name, ok := releaseNameOfKey(key)
+	if !ok {
 		return nil, ErrInvalidKey
 	}
 	if _, ok := mem.cache[mem.namespace]; ok {
